@@ -1,5 +1,6 @@
 import Ptn.C19.Model
 import Ptn.C19.Special
+import Ptn.C19.ValueModel
 /-! Line-protocol handler for the C19 model (core Lean only).
 
   grid <rows> <cols>                → `i_j-k_l,…`              pair list of `_find_nn_pairs`
@@ -16,6 +17,11 @@ import Ptn.C19.Special
   binary <nphys> <bd> <d>           → same, ids `V<level>.<pos>`, `P<k>` (`generate_binary_ttns`)
   starl <cshape> <c>@<k>:<shape> …  → as `star`, every call with its `parent_leg` (`k` a number or `-` for `None`)
   forkl m@<k>:<shape> s<i>@<k>:<shape> … → as `fork`, with `parent_leg`
+  mpsrec <n> <r> <p0> … <p(n-1)>    → `nodes id:lab,lab,…;… | rec a~b … | chain a~b …`  value level: per node (dict order)
+                                       the labels of its legs in `(parent, children, open)` order (`<site>L`, `<site>R`,
+                                       `<site>P<k>` = input axis left / right / k-th open), the binding record of the
+                                       network (`stRecord`: parent's leg `neighbour_index(node)` ~ node's leg 0) and the
+                                       specified chain record (`chainRecord`)
   mpsdirect <n> <r> <p0> … | <step> … → as `mps`: `add_root` of site `r`, then the direct calls `L` / `Lf`
                                        (`attach_node_left_end`, `f` = `final=True`) and `R` (`attach_node_right_end`)
 -/
@@ -170,6 +176,23 @@ def parseForkCallL (t : String) : Option ForkCallL :=
     | _, _ => none
   | _ => none
 
+def showAxis : Axis → String
+  | .left => "L"
+  | .right => "R"
+  | .phys k => s!"P{k}"
+
+def showCLeg (l : CLeg) : String := toString l.1 ++ showAxis l.2
+
+def showCPairs (ps : List (CLeg × CLeg)) : String :=
+  if ps.isEmpty then "-" else " ".intercalate (ps.map fun pr => showCLeg pr.1 ++ "~" ++ showCLeg pr.2)
+
+def showMpsRec (n : Nat) : Option MPT → String
+  | none => "none"
+  | some st =>
+    "nodes " ++ ";".intercalate (st.nodes.map fun x =>
+        s!"{x.id}:" ++ ",".intercalate ((List.range x.legs.length).map fun k => showCLeg (x.lab n k))) ++
+      " | rec " ++ showCPairs (stRecord n st) ++ " | chain " ++ showCPairs (chainRecord n)
+
 def parseStep (t : String) : Option (Bool × Bool) :=
   if t = "L" then some (true, false) else if t = "Lf" then some (true, true)
   else if t = "R" then some (false, false) else none
@@ -221,6 +244,11 @@ def handle (args : List String) : String :=
     match a.toNat?, b.toNat? with
     | some rows, some cols => ";".intercalate ((isingGrid rows cols).map (showTerm showCell))
     | _, _ => "bad-op"
+  | "mpsrec" :: a :: b :: ps =>
+    match a.toNat?, b.toNat?, parseNats ps with
+    | some n, some r, some pl =>
+      if pl.length ≠ n then "bad-op" else showMpsRec n (fromTensorList n r (fun i => pl.getD i 0))
+    | _, _, _ => "bad-op"
   | "mps" :: a :: b :: ps =>
     match a.toNat?, b.toNat?, parseNats ps with
     | some n, some r, some pl =>
